@@ -33,6 +33,9 @@ class Cell:
         return "Cell(%s,%s,%s)" % (self.n, self.ty, self.t)
 
 
+_KERNELS = {}
+
+
 class Bank:
     """kernels of function.rs / injection.rs by (function name, closure index), translated lazily in one mode"""
 
@@ -67,9 +70,10 @@ class Bank:
 
     def apply(self, name, args):
         """instantiate kernel `name` on argument terms -> (value term or mir value, panic)"""
-        if name not in self.cache:
-            self.cache[name] = kern.Kernel(self.fns, name, self.mode)
-        i = self.cache[name].inst(args)
+        key = (id(self.fns), name, self.mode)
+        if key not in _KERNELS:
+            _KERNELS[key] = kern.Kernel(self.fns, name, self.mode)
+        i = _KERNELS[key].inst(args)
         for d in i["decls"]:
             if d not in self.uf_decl:
                 self.uf_decl.add(d)
@@ -168,8 +172,8 @@ class Evaluator:
         return lor([c.n for c in cells])
 
     def numeric_common(self, cells):
-        if all(c.ty in ("i64",) for c in cells):
-            return "i64"
+        if all(c.ty in ("i64", "bool") for c in cells) and any(c.ty == "i64" for c in cells):
+            return "i64"   # Boolean -> Integer injection: the integer implementation accepts booleans
         if all(c.ty in ("i64", "f64", "bool") for c in cells):
             return "f64"
         raise Unsupported("non numeric operands " + ",".join(c.ty for c in cells))
@@ -275,6 +279,9 @@ class Evaluator:
             return Cell(x.n, "f64" if f == "CastAsFloat" else "i64", v.t, x.opt)
         if f == "IsNull":
             (x,) = cells
+            if self.null_mode == "value":
+                # function::Optional wraps is_null too: a NULL argument never reaches it (NULL in, NULL out), Some(v) gives Some(false)
+                return Cell(x.n, "bool", "false", x.opt)
             return Cell("false", "bool", x.n)
         if f == "Coalesce":
             x, y = cells
